@@ -202,6 +202,10 @@ func (c *SchemaCtx) IssueFromUnknownError(err error) *ZogIssue {
 	if !ok {
 		return c.Issue().SetError(err)
 	}
+	// issues built outside of a schema (i.e by zhttp or zjson) do not know the type of the schema they end up in
+	if zerr.Dtype == "" {
+		zerr.Dtype = c.DType
+	}
 	return zerr
 }
 
